@@ -805,14 +805,20 @@ class CodeGen:
             case ast.ArrayInitializer():
                 length_bubble = yield from self.push_expr(self.r0, expr.length)
                 length = yield from length_bubble.get_fast(self.r0)
-                if not self.unchecked and not expr.type.el_type.byte_sized:
-                    # The byte-sized case will get properly handled by
+                el_type = expr.type.el_type
+                if not self.unchecked and (not el_type.byte_sized or el_type == DataType.BOOL):
+                    # The byte case will get properly handled by the
                     # stack overflow check, but we need to deal with the
                     # possibility of integer overflow in get_array_size
-                    # messing up the check.
+                    # messing up the check.  For bool, a length of -7..-1
+                    # would otherwise round to a size of 0, and a huge
+                    # length would wrap when rounding up to whole bytes.
+                    max_length = self.max_length(el_type)
+                    if el_type == DataType.BOOL:
+                        max_length -= 7
                     safe_length = self.add_label('safe_length')
                     yield asm.Jump(safe_length)
-                    yield asm.Hleu(length, asm.IntLiteral(self.max_length(expr.type.el_type)))
+                    yield asm.Hleu(length, asm.IntLiteral(max_length))
                     yield from self.goto(stdlib.stack_overflow)
                     yield asm.Label(safe_length)
                 origin_bubble = self.reserve_word()
